@@ -163,6 +163,9 @@ def run_native_fuzz(shard, acc):
         for a in ints:
             combos.append((child, [a]))
             combos.append((child, [0, a]))
+        for k in (2**8, 2**16, 2**31, 2**32, 2**33, 2**48, 2**62, -2**32, -2**40):
+            for c_ in (0, 1, 15):
+                combos.append((child, [k + c_]))
     if fname in ("net_if_flags", "net_if_mtu", "net_if_is_running", "net_if_duplex_speed", "disk_partitions"):
         for s in STRS + BYTES:
             combos.append((s,))
@@ -179,6 +182,18 @@ def run_native_fuzz(shard, acc):
             out = type(e).__name__
             if isinstance(e, (SystemExit, KeyboardInterrupt, MemoryError)):
                 acc.viol(f"native_{out}:{fname}", f"{fname}{case['args']!r} raised {e!r}", case)
+        if out == "value" and fname == "proc_cpu_affinity_set" and len(args) == 2 and args[0] == child:
+            # integer truncation monitor: a value that is not a CPU number must never select a CPU
+            try:
+                asked = {x for x in args[1] if isinstance(x, int) and not isinstance(x, bool) and 0 <= x < 4096}
+                got = set(os.sched_getaffinity(child))
+                acc.count("affinity_truncation_checks")
+                if not got <= asked:
+                    acc.viol("affinity_set_selected_cpu_not_asked_for:integer_truncation",
+                             f"proc_cpu_affinity_set(child, {case['args'][1]!r}) succeeded and the kernel mask is {sorted(got)}", case)
+                os.sched_setaffinity(child, range(1024))
+            except (TypeError, OSError):
+                pass
         acc.count("outcome_" + out)
         nontriv = any((isinstance(a, int) and abs(a) >= 2**31) or not isinstance(a, (int, str)) for a in args)
         acc.case(case, nontriv, ())
